@@ -894,14 +894,22 @@ def _build_sense(
         elem = ET.Element('Sense', attrib=attrib)
     elem.extend([_build_relation(rel, 'SenseRelation')
                  for rel in sense.get('relations', [])])
-    elem.extend([_build_example(ex) for ex in sense.get('examples', [])])
+    elem.extend([_build_example(ex, version) for ex in sense.get('examples', [])])
     elem.extend([_build_count(cnt) for cnt in sense.get('counts', [])])
     return elem
 
 
-def _build_example(example: Example) -> ET.Element:
+def _set_text(elem: ET.Element, text: str, version: VersionInfo) -> None:
+    elem.text = text
+    # whitespace is normalized when the file is read unless the element
+    # says otherwise, which WN-LMF 1.3 and later allow
+    if version >= (1, 3) and _XML_WHITESPACE.sub(' ', text).strip(' ') != text:
+        elem.set('xml:space', 'preserve')
+
+
+def _build_example(example: Example, version: VersionInfo) -> ET.Element:
     elem = ET.Element('Example', attrib=_meta_dict(example.get('meta')))
-    elem.text = example['text']
+    _set_text(elem, example['text'], version)
     if example.get('language'):
         elem.set('language', example['language'])
     return elem
@@ -921,7 +929,8 @@ def _dump_synset(
     attrib: dict[str, str] = {'id': synset['id']}
     if synset.get('external', False):
         elem = ET.Element('ExternalSynset', attrib=attrib)
-        elem.extend([_build_definition(defn) for defn in synset.get('definitions', [])])
+        elem.extend([_build_definition(defn, version)
+                     for defn in synset.get('definitions', [])])
     else:
         synset = cast(Synset, synset)
         attrib['ili'] = synset['ili']
@@ -936,16 +945,17 @@ def _dump_synset(
                 attrib['lexfile'] = synset['lexfile']
         attrib.update(_meta_dict(synset.get('meta')))
         elem = ET.Element('Synset', attrib=attrib)
-        elem.extend([_build_definition(defn) for defn in synset.get('definitions', [])])
+        elem.extend([_build_definition(defn, version)
+                     for defn in synset.get('definitions', [])])
         if synset.get('ili_definition'):
-            elem.append(_build_ili_definition(synset['ili_definition']))
+            elem.append(_build_ili_definition(synset['ili_definition'], version))
     elem.extend([_build_relation(rel, 'SynsetRelation')
                  for rel in synset.get('relations', [])])
-    elem.extend([_build_example(ex) for ex in synset.get('examples', [])])
+    elem.extend([_build_example(ex, version) for ex in synset.get('examples', [])])
     print(_tostring(elem, 2), file=out)
 
 
-def _build_definition(definition: Definition) -> ET.Element:
+def _build_definition(definition: Definition, version: VersionInfo) -> ET.Element:
     attrib = {}
     if definition.get('language'):
         attrib['language'] = definition['language']
@@ -953,13 +963,15 @@ def _build_definition(definition: Definition) -> ET.Element:
         attrib['sourceSense'] = definition['sourceSense']
     attrib.update(_meta_dict(definition.get('meta')))
     elem = ET.Element('Definition', attrib=attrib)
-    elem.text = definition['text']
+    _set_text(elem, definition['text'], version)
     return elem
 
 
-def _build_ili_definition(ili_definition: ILIDefinition) -> ET.Element:
+def _build_ili_definition(
+    ili_definition: ILIDefinition, version: VersionInfo
+) -> ET.Element:
     elem = ET.Element('ILIDefinition', attrib=_meta_dict(ili_definition.get('meta')))
-    elem.text = ili_definition['text']
+    _set_text(elem, ili_definition['text'], version)
     return elem
 
 
